@@ -238,7 +238,19 @@ class FGen:
                 # the comprehension's target has the name of a reference the formula can also read
                 rd = [x for x in self.readables() if x[0] in ("name", "model_name")]
                 if rd:
-                    var = rd[self.rng.randrange(len(rd))][1][1]
+                    pick = rd[self.rng.randrange(len(rd))][1]
+                    var = pick[1]
+                    if self.rng.random() < 0.5:
+                        # ... and a comprehension nested in it reads that target, while the formula reads the member of the
+                        # same name outside both
+                        self.locals.append(var)
+                        self.locals.append("u")
+                        inner = ["sum", "u", self.rng.choice([1, 2]), ["bin", "+", ["p", var], self.expr(max(depth - 2, 0))],
+                                 self.rng.choice(["list", "list", "gen"])]
+                        self.locals.remove("u")
+                        body = ["bin", self.rng.choice(["+", "-"]), inner, self.expr(max(depth - 2, 0))]
+                        self.locals.remove(var)
+                        return ["bin", "+", list(pick), ["sum", var, self.rng.choice([1, 2, 3]), body, self.rng.choice(["list", "list", "gen"])]]
             self.locals.append(var)
             body = self.expr(depth - 1)
             self.locals.remove(var)
